@@ -343,6 +343,58 @@ func ruleDFFLOW(c *Ctx, r *Report) {
 		}
 	}
 	r.floor(rule, "tests of the option", n, 2)
+	// every place the option's value is handed on: only to reduce.Reduce / the reducers / the wrapping
+	// helper, or inside the acceptance case
+	reduceFn := c.pkgFunc(pkgReduce, "Reduce")
+	isReducer := map[*ssa.Function]bool{}
+	for _, f := range pt.Reducers {
+		isReducer[f] = true
+	}
+	nUse := 0
+	for _, f := range c.Funcs {
+		p := fnPkgPath(f)
+		if p != pkgRoot && p != pkgReduce {
+			continue
+		}
+		helper := false
+		for _, g := range c.acceptHelpers(pr) {
+			if g == f {
+				helper = true
+			}
+		}
+		for _, b := range f.Blocks {
+			for _, in := range b.Instrs {
+				call, ok := in.(*ssa.Call)
+				if !ok {
+					continue
+				}
+				for _, a := range call.Call.Args {
+					k := c.key(a, nil)
+					isOpt := strings.HasSuffix(k, "."+pr.DefF.Name()) && !strings.ContainsAny(k, "(,")
+					if p == pkgReduce && f.Signature.Params().Len() == 3 && k == "$2" {
+						isOpt = true
+					}
+					if !isOpt {
+						continue
+					}
+					nUse++
+					callee := call.Call.StaticCallee()
+					key := fnName(f) + "|passes-option-to|" + c.key(call.Call.Value, nil)
+					switch {
+					case callee == reduceFn || isReducer[callee] || (callee != nil && callee == pt.Wrapper):
+						r.ok(rule, key, c.instrPos(in), "handed to the reducers / wrapping helper")
+					case callee == nil && p == pkgReduce:
+						r.ok(rule, key, c.instrPos(in), "handed to a reducer through the reducer list")
+					case (f == pr.ParseLoop || helper || f == pt.Wrapper) && callee != nil && fnPkgPath(callee) == pkgExpr:
+						r.ok(rule, key, c.instrPos(in), "acceptance case / wrapping helper: handed to an expression constructor")
+					default:
+						r.bad(rule, key, c.instrPos(in), fmt.Sprintf("%s hands the default-field option to %s: the option may only reach the wrapping helper (through the reducers) and the single-term acceptance case — any other consumer scopes or rewrites terms in a way the two documented mechanisms do not", fnName(f), c.key(call.Call.Value, nil)))
+					}
+				}
+			}
+		}
+	}
+	r.floor(rule, "hand-overs of the option", nUse, 5)
 	for _, row := range pt.Rows {
 		for _, o := range row.Other {
 			if strings.Contains(o, "$2") {
